@@ -10,5 +10,16 @@ rsync -a --exclude .git --exclude '__pycache__' /repo/ "$W/repo/"
 mkdir -p "$W/out"
 VERIF_REPO="$W/repo" VERIF_OUT="$W/out" "$(dirname "$0")/../check" "$@"
 rc=$?
+if [ -n "${REPLAY_TOO:-}" ] && [ $rc -eq 1 ]; then
+  # the minimised replay file must reproduce the violation in a fresh process (same patched tree)
+  rp=$(ls "$W/out/replays/"*.json 2>/dev/null | head -1)
+  if [ -n "$rp" ]; then
+    VERIF_REPO="$W/repo" VERIF_OUT="$W/out" "$(dirname "$0")/../check" "$1" --replay "$rp" > "$W/replay.log" 2>&1
+    rrc=$?
+    if [ $rrc -eq 1 ] && grep -q "^VIOLATION" "$W/replay.log"; then echo "REPLAY-REPRODUCES $(grep -o 'minimisation_steps[^,]*' $rp | head -1) $(wc -c < $rp) bytes"; else echo "REPLAY-DOES-NOT-REPRODUCE rc=$rrc"; tail -3 "$W/replay.log"; fi
+  else
+    echo "REPLAY-FILE-MISSING"
+  fi
+fi
 if [ -n "${KEEP_REPLAY:-}" ] && ls "$W/out/replays/"*.json >/dev/null 2>&1; then cp "$W/out/replays/"*.json "$KEEP_REPLAY/"; fi
 exit $rc
